@@ -14,6 +14,10 @@ NA = {
 }
 
 CHECKS = {
+ "C13": dict(engine="K2", category="exploration", design="§4 C13",
+   technique="deterministic simulation: seeded exclusive scheduler with race-detector-invisible hand-off (raw pipe syscalls) over statement-level yield points, -race build; solo-equality oracle + admitted race reports; sequential consumer-selection runs against a reference table",
+   text="Part B (simulation target): 2..8 tasks call Submit on one fresh Runtime; exactly one task runs at a time and control is handed over by raw pipe system calls that the race detector does not see, so the detector reports every conflicting access pair that only the simulator's serialisation orders — deterministically for a tape. Preemption happens at instrumented statement boundaries (PCT-style change points from the tape) and at transport calls. Oracles: each caller's observation equals its solo execution (own token, own consumer), and no race report with both stacks inside go-openapi/runtime. Part A: sequential Submit calls over generated Content-Type spellings × registries × status/header sets × operation-level vs runtime-level client/context against a reference selection table (input sampling, said plainly). Seeded sampling of schedules, not proof.",
+   note="No multipart bodies, stalls or timeouts under K2 (no fake clock there); a race already evicted from the detector's per-location history or masked by incidental stdlib synchronisation can be missed; race violations are not minimised in-process because the detector de-duplicates reports per process (replay in a fresh process reproduces them)."),
  "C10": dict(engine="SEQ", category="exploration", design="§4 C10",
    technique="deterministic simulation of map-iteration order: instrumented map ranges iterate in simulator-chosen order, all n! orders of the path-parameter map enumerated per generated input; reference URL model on the same runs",
    text="Go randomises the iteration order of the three maps buildHTTP walks; unit tests see one order per process. Here the instrumented ranges take their order from the simulator: for each tape-generated (base path, pattern, value map, query sets, scheme lists) CreateHttpRequest runs once per permutation of the path-parameter map (all n! for n≤4) and the URLs must be identical to one another and equal to a reference model (simultaneous PathEscape substitution into path.Join(base,pattern), trailing slash kept, query precedence caller>pattern>base, https when offered among several). The order clause is the simulation target; the reference-model clauses are seeded input sampling and are stated as such.",
